@@ -169,12 +169,15 @@ def run(chk) -> None:
     # the same identifiers in every file, and a list accumulator next to a string accumulator of the same name:
     # whatever a rule remembers per identifier must not travel from one file of a run to the next
     for ci, cmd in enumerate(cmds):
-        for force in ({4: "collector", 5: "perf"}, {4: "perf", 5: "collector"}, None, {4: "tstwins", 5: "pytwins"}):
+        for force in ({4: "collector", 5: "perf"}, {4: "perf", 5: "collector"}, None, {4: "tstwins", 5: "pytwins"},
+                      {4: "selfdup", 5: "clean"}):
+            if force and force.get(4) == "selfdup" and cmd not in ("dry", "stringly-typed", "nesting"):
+                continue
             if quick and force is None and ci % 2:
                 continue
             jobs.append({"n": n, "cross": [[1, 2], [3, 6]], "layout": "flat", "offset": [0, 5, 10][ci % 3], "cmd": cmd,
                          "targets": dir_and_files, "config": "base", "explicit": None,
-                         "shared_names": not (force and 4 in force and force[4] == "tstwins"), "force": force,
+                         "shared_names": not (force and 4 in force and force[4] in ("tstwins", "selfdup")), "force": force,
                          "root": str(scratch_root() / f"c10-{len(jobs)}" / "proj")})
     log(f"C10: {len(jobs)} jobs x <= {len(targets)} targets")
     res = pool.run_jobs(job, jobs, nproc=NCPU, timeout=600)
